@@ -147,7 +147,7 @@ func genProgram(c *vf.Ctx, id int, nNodes int) program {
 	n := 8 + r.IntN(10)
 	for i := 0; i < n; i++ {
 		path := pick(r, "/db/execute", "/db/execute", "/db/execute?transaction", "/db/request", "/db/request?transaction", "/db/execute?queue&wait")
-		switch r.IntN(17) {
+		switch r.IntN(19) {
 		case 0, 1:
 			add(path, clsExplicit, fmt.Sprintf("INSERT INTO %sa(r, b, d, s) VALUES(%s, %s, %s, %s)", px, ndExpr(r), ndExpr(r), ndExpr(r), ndExpr(r)))
 		case 2:
@@ -179,6 +179,13 @@ func genProgram(c *vf.Ctx, id int, nNodes int) program {
 			add(path, clsSpace, fmt.Sprintf("INSERT INTO %sspc(v) VALUES(%s)", px, pick(r, "random ()", "RANDOM ()", "randomblob (8)", "datetime ('now')", "random\t()")))
 		case 14:
 			add(path, clsSubquery, fmt.Sprintf("INSERT INTO %ssub(v) VALUES((SELECT %s))", px, pick(r, "random() + 1", "datetime('now')", "hex(randomblob(4))")))
+		case 17:
+			// non-deterministic calls in the LIMIT / OFFSET of an ordered SELECT (the
+			// ORDER BY itself is deterministic), feeding an INSERT ... SELECT
+			add(path, clsExplicit, fmt.Sprintf("INSERT INTO %sb(k, r) SELECT 'l' || id, id FROM %sa ORDER BY id LIMIT abs(random() %% 5) + 1 OFFSET abs(random() %% 3)", px, px))
+		case 18:
+			// ... and in a result column that follows a window function with its own ORDER BY
+			add(path, clsExplicit, fmt.Sprintf("INSERT INTO %sb(k, r, d) SELECT 'w' || id, row_number() OVER (ORDER BY id), %s FROM %sa", px, ndExpr(r), px))
 		case 15:
 			// An earlier statement of the request is deterministic but not accepted by
 			// rqlite's SQL parser (SQLite accepts it), and mentions a function name
